@@ -255,10 +255,103 @@ def main():
             sys.setswitchinterval(old)
         return all_results
 
+    def gen_text(g):
+        """generate_code for {assignment, formats (ordered pairs), kinds, language} -> sha1 of the text | refusal name"""
+        import hashlib
+
+        from returns.result import Failure
+        from tensora.expression import parse_assignment
+        from tensora.format import parse_format
+        from tensora.generate import Language, generate_code
+        from tensora.kernel_type import KernelType
+        from tensora.problem import make_problem
+
+        try:
+            asg = parse_assignment(g["assignment"]).unwrap()
+            prob = make_problem(asg, {n: parse_format(f).unwrap() for n, f in g["formats"]}).unwrap()
+            res = generate_code(prob, [KernelType[k] for k in g["kinds"]], Language[g["language"]])
+            if isinstance(res, Failure):
+                return {"refused": type(res.failure()).__name__}
+            return {"sha1": hashlib.sha1(res.unwrap().encode()).hexdigest(), "chars": len(res.unwrap())}
+        except BaseException as e:  # noqa: BLE001
+            return {"raised": f"{type(e).__name__}: {e}"[:300]}
+
+    def gen_concurrent(workload, choices, nthreads, rounds, concurrent_first=False):
+        """The same generate_code requests alone, then under the line-level scheduler (choices given) or free-running.
+        concurrent_first: the concurrent run comes first (fresh process), the sequential reference afterwards."""
+        if concurrent_first:
+            first = gen_concurrent(workload, choices, nthreads, 1)
+            seq = [gen_text(g) for g in workload]
+            first["sequential"] = seq
+            return first
+        seq = [gen_text(g) for g in workload]
+        if choices is not None:
+            s = Sched(choices)
+            results = [None] * len(workload)
+
+            def tracer(tid):
+                def local(frame, event, arg):
+                    if event == "line":
+                        s.yield_(tid)
+                    return local
+
+                def glob(frame, event, arg):
+                    return local if frame.f_code.co_filename.startswith(watch_dir) else None
+
+                return glob
+
+            def body(tid):
+                sys.settrace(tracer(tid))
+                try:
+                    s.yield_(tid)
+                    results[tid] = gen_text(workload[tid])
+                finally:
+                    sys.settrace(None)
+                    s.done(tid)
+
+            ths = [threading.Thread(target=body, args=(t,), daemon=True) for t in range(len(workload))]
+            for t in ths:
+                t.start()
+            hung = False
+            for t in ths:
+                t.join(120)
+                hung = hung or t.is_alive()
+            return {"sequential": seq, "rounds": [{"results": results, "hung": hung}], "switches": s.switches}
+        out = []
+        old = sys.getswitchinterval()
+        sys.setswitchinterval(1e-6)
+        try:
+            for _ in range(rounds):
+                results = [None] * len(workload)
+                k = min(nthreads, len(workload))
+                barrier = threading.Barrier(k)
+
+                def body(idxs):
+                    barrier.wait()
+                    for i in idxs:
+                        results[i] = gen_text(workload[i])
+
+                ths = [threading.Thread(target=body, args=(list(range(q, len(workload), k)),), daemon=True) for q in range(k)]
+                for t in ths:
+                    t.start()
+                hung = False
+                for t in ths:
+                    t.join(300)
+                    hung = hung or t.is_alive()
+                out.append({"results": results, "hung": hung})
+                if hung:
+                    break
+        finally:
+            sys.setswitchinterval(old)
+        return {"sequential": seq, "rounds": out}
+
     for line in sys.stdin:
         req = json.loads(line)
         try:
-            if req["op"] == "controlled":
+            if req["op"] == "generate":
+                rep = gen_concurrent(req["workload"], req.get("choices"), req.get("nthreads", 8), req.get("rounds", 2),
+                                     req.get("concurrent_first", False))
+            elif req["op"] == "controlled":
                 if req.get("concurrent_first"):
                     # fresh process: the scheduled concurrent run is the first thing that ever happens in it
                     res, info = controlled(req["workload"], req["choices"], False, False, req.get("pause"))
